@@ -55,6 +55,7 @@ REQUIRED = [
     "variant:asyncio-adapter",
     "variant:async-tls",
     "send_after_resume_without_waiters",
+    "variant:client-behind-send-lock",
     "variant:sync-tls",
 ]
 EXHAUSTIVE = {"quick": False, "thorough": False}
@@ -451,6 +452,13 @@ def run_shard(params: dict, ctx) -> None:
                     kind = "spin" if ("deadlock" in why or "CPU" in why or why.startswith("spin")) else "bytes" if "peer received" in why or "queued" in why else "other"
                     shape = ":trailing-empty" if "[trailing-empty]" in why else ""
                     ctx.violation(f"{kind}:{v}{shape}", f"[{v}] {why}", {"variant": v, "seed": params["seed"], "i": i, "other": True})
+            # "fails with TimeoutError within its time budget" at client level: the budget also covers the wait for the send lock
+            # (monitor shared with C11: TCPNetworkClient.send_packet behind a held lock, then a gated kernel buffer, virtual time)
+            from checks import c11
+
+            for _ in range(6):
+                ctx.count("variant:client-behind-send-lock")
+                c11.scenario_client_send_lock(ctx, rng, rng.choice([t for t in c11.TS if t is not None]), rng.choice(c11.RETRIES), [params["seed"], i, "c04"])
         return
     v = params["variant"]
     T = TIMEOUTS[params["timeout_idx"]]
@@ -473,6 +481,10 @@ def run_shard(params: dict, ctx) -> None:
 
 
 def replay(witness: dict, ctx) -> None:
+    if witness.get("kind") == "client-send-lock":
+        tag = witness["tag"]  # [shard seed, iteration, "c04"]: re-run that shard prefix
+        run_shard({"seed": tag[0], "kind": "other", "n": tag[1] + 1}, ctx)
+        return
     if witness.get("other"):
         run_shard({"seed": witness["seed"], "kind": "other", "n": witness["i"] + 1}, ctx)
         return
